@@ -108,7 +108,8 @@ pub fn environment(cfg: &SolveCfg, quota: Option<Arc<dyn Quota>>) -> Arc<Environ
         Some((p, t)) => Parallelism::new(p, t),
         None => Parallelism::new_with_cpus(cfg.cpus),
     };
-    Arc::new(Environment::new(Arc::new(DefaultRandom::new_repeatable()), quota, parallelism, Arc::new(|_| {}), false))
+    let experimental = false;
+    Arc::new(Environment::new(Arc::new(DefaultRandom::new_repeatable()), quota, parallelism, Arc::new(|_| {}), experimental))
 }
 
 pub fn write_solution(core: &CoreProblem, solution: &CoreSolution) -> Result<Value, String> {
@@ -129,6 +130,8 @@ pub fn build_config(
         HyperKind::Dynamic => Box::new(get_dynamic_heuristic(core.clone(), environment.clone())),
         HyperKind::Static => Box::new(get_static_heuristic(core.clone(), environment.clone())),
     };
+    let heuristic: TargetHeuristic =
+        if std::env::var("VERIF_TRACE_CONSERVATION").is_ok() { Box::new(TraceConservation { inner: heuristic, total: core.jobs.size() }) } else { heuristic };
     let builder = match cfg.population {
         PopKind::Default => VrpConfigBuilder::new(core.clone())
             .set_environment(environment.clone())
@@ -189,5 +192,81 @@ pub fn solve_core(core: Arc<CoreProblem>, cfg: &SolveCfg, quota: Option<Arc<dyn 
     match result {
         Ok(r) => r,
         Err(p) => Err(format!("panic: {p}")),
+    }
+}
+
+
+/// Debug aid: wraps the hyper-heuristic and reports the first offspring which does not account for every job.
+struct TraceConservation {
+    inner: TargetHeuristic,
+    total: usize,
+}
+
+impl TraceConservation {
+    fn check(&self, ctx: &RefinementContext, what: &str, solutions: &[vrp_core::construction::heuristics::InsertionContext]) {
+        use rosomaxa::HeuristicContext;
+        for s in solutions {
+            let in_routes: usize = s.solution.routes.iter().map(|r| r.route().tour.job_count()).sum();
+            let accounted = in_routes + s.solution.unassigned.len() + s.solution.required.len() + s.solution.ignored.len();
+            // conditional jobs (breaks/reloads) are part of problem.jobs as well, so `total` counts them too
+            if accounted != self.total {
+                use vrp_core::models::problem::JobIdDimension;
+                let ids = |jobs: Vec<&vrp_core::models::problem::Job>| jobs.iter().map(|j| j.dimens().get_job_id().cloned().unwrap_or_default()).collect::<Vec<_>>();
+                eprintln!(
+                    "TRACE detail: routes {:?} unassigned {:?}",
+                    s.solution.routes.iter().map(|r| ids(r.route().tour.jobs().collect())).collect::<Vec<_>>(),
+                    ids(s.solution.unassigned.keys().collect())
+                );
+                eprintln!(
+                    "TRACE generation {} {what}: {} jobs accounted of {} (routes {in_routes}, unassigned {}, required {}, ignored {})\n{}",
+                    ctx.statistics().generation,
+                    accounted,
+                    self.total,
+                    s.solution.unassigned.len(),
+                    s.solution.required.len(),
+                    s.solution.ignored.len(),
+                    self.inner_display_tail()
+                );
+            }
+        }
+    }
+    fn inner_display_tail(&self) -> String {
+        let text = format!("{}", self.inner);
+        let lines: Vec<&str> = text.lines().filter(|l| l.split(',').count() == 6).collect();
+        lines.iter().rev().take(6).rev().cloned().collect::<Vec<_>>().join("\n")
+    }
+}
+
+impl rosomaxa::hyper::HyperHeuristic for TraceConservation {
+    type Context = RefinementContext;
+    type Objective = vrp_core::models::GoalContext;
+    type Solution = vrp_core::construction::heuristics::InsertionContext;
+
+    fn search(&mut self, ctx: &Self::Context, solution: &Self::Solution) -> Vec<Self::Solution> {
+        let r = self.inner.search(ctx, solution);
+        self.check(ctx, "search", &r);
+        r
+    }
+    fn search_many(&mut self, ctx: &Self::Context, solutions: Vec<&Self::Solution>) -> Vec<Self::Solution> {
+        self.check(ctx, "parents", &solutions.iter().map(|s| rosomaxa::HeuristicSolution::deep_copy(*s)).collect::<Vec<_>>());
+        let r = self.inner.search_many(ctx, solutions);
+        self.check(ctx, "search_many", &r);
+        r
+    }
+    fn diversify(&self, ctx: &Self::Context, solution: &Self::Solution) -> Vec<Self::Solution> {
+        let r = self.inner.diversify(ctx, solution);
+        self.check(ctx, "diversify", &r);
+        r
+    }
+    fn diversify_many(&self, ctx: &Self::Context, solutions: Vec<&Self::Solution>) -> Vec<Self::Solution> {
+        let r = self.inner.diversify_many(ctx, solutions);
+        self.check(ctx, "diversify_many", &r);
+        r
+    }
+}
+
+impl std::fmt::Display for TraceConservation {
+    fn fmt(&self, f: &mut std::fmt::Formatter<'_>) -> std::fmt::Result {
+        write!(f, "{}", self.inner)
     }
 }
